@@ -9,10 +9,10 @@ namespace QbiceVerif.WideCacheR
 open QbiceVerif.WideCache (Entry Batch cacheWriteEntry notifyEntry)
 
 /-- reachability along schedules whose `cacheWrite`s are ordered -/
-inductive Reach (s0 : State) : State → Prop where
-  | init : Reach s0 s0
+inductive ReachOrdered (s0 : State) : State → Prop where
+  | init : ReachOrdered s0 s0
   | step {s s' : State} {e : Ev} {out : Option (Option Nat)} :
-      Reach s0 s → (∀ t, e = .cacheWrite t → ordered s t = true) → fire s e = some (s', out) → Reach s0 s'
+      ReachOrdered s0 s → (∀ t, e = .cacheWrite t → ordered s t = true) → fire s e = some (s', out) → ReachOrdered s0 s'
 
 def isCw (t : Task) : Bool := (cwOpen t).isSome
 def mentions (b : Batch) : Bool := b.write.isSome
@@ -1076,7 +1076,7 @@ theorem inv_step {s s' : State} {e : Ev} {out} (I : Inv s)
   | notify => exact ⟨step_notify I h, noOut h (by simp)⟩
   | evict => exact ⟨step_evict I h, noOut h (by simp)⟩
 
-theorem inv_reach {db0 : Option Nat} {n : Nat} {s : State} (h : Reach (init true db0 n) s) : Inv s := by
+theorem inv_reach {db0 : Option Nat} {n : Nat} {s : State} (h : ReachOrdered (init true db0 n) s) : Inv s := by
   induction h with
   | init => exact inv_init db0 n
   | step _ hord hf ih => exact (inv_step ih hord hf).1
@@ -1117,5 +1117,27 @@ theorem run_outputs {s : State} (I : Inv s) :
                       simp [h1, h2]
                     · exact ih' p hp
 
+
+theorem run_of_runAny {s : State} : ∀ {sched : List Ev} {r}, runAny s sched = some r → orderedSched s sched = true →
+    run s sched = some r := by
+  intro sched
+  induction sched generalizing s with
+  | nil => intro r h _; simpa [run, runAny] using h
+  | cons e es ih =>
+      intro r h ho
+      simp only [runAny] at h
+      cases hf : fire s e with
+      | none => simp [hf] at h
+      | some p =>
+          obtain ⟨s1, out⟩ := p
+          simp only [orderedSched, hf, Bool.and_eq_true] at ho
+          simp only [hf] at h
+          simp only [run, ho.1, hf]
+          cases hr : runAny s1 es with
+          | none => simp [hr] at h
+          | some r2 =>
+              simp only [hr] at h
+              rw [ih hr ho.2]
+              simpa using h
 
 end QbiceVerif.WideCacheR
